@@ -21,29 +21,3 @@ pub proof fn lemma_bvd_addsub_finish(o: &Bvd, mid: Seq<u64>, f: &Bvd, rv: nat, r
     {FIN}(words_val(mid, n), carry as nat, kk, len, o.val(), words_val(rw, n), rv);
     lemma_pow2_pos(len);
 }
-/// the operand words used by the carry chain (rhs words, zero-extended) are the operand's value modulo 2^m
-pub proof fn lemma_bvd_operand_words(rhs: &Bvd, rw: Seq<u64>, n: nat, m: nat)
-    requires
-        rhs.wf(), rw.len() == n, m <= 64 * n,
-        forall|k: int| 0 <= k < n ==> rw[k] == (if k < (rhs.length + 63) / 64 { rhs.data@[k] } else { 0u64 }),
-    ensures
-        words_val(rw, n) % pow2(m) == rhs.val() % pow2(m),
-{
-    let nr = (rhs.length + 63) / 64;
-    lemma_seq_val(rw, n);
-    assert forall|b: int| 0 <= b < 64 * n implies #[trigger] seqf(rw)(b) == rhs.bitf()(b) by {
-        let k = b / 64;
-        let t = (b % 64) as u64;
-        if k < nr {
-            assert(rw[k] == rhs.data@[k]);
-            assert(bit_at(rhs.data@, b) == wbit(rhs.data@[k], t as nat));
-            if b >= rhs.length { assert(!bit_at(rhs.data@, b)); }
-        } else {
-            assert(rw[k] == 0u64);
-            lemma_wbit_zero(t);
-        }
-    }
-    lemma_fval_ext(seqf(rw), rhs.bitf(), 64 * n);
-    assert forall|b: int| rhs.length <= b implies !#[trigger] rhs.bitf()(b) by { }
-    lemma_fval_trunc_cong(rhs.bitf(), rhs.length as nat, 64 * n, m);
-}
